@@ -111,4 +111,18 @@ PROPS = {
         "trusted_base": COMMON_TB + ["the request dispatch (tokensHandler / Exchange switch, ClientIDFromRequest, ParseTokenRevocationRequest) is not modelled: it is covered by the monitor on the real handlers only"],
         "assumptions": ["presenting a client_secret_basic secret in the POST body is not treated as a violation (the code accepts it)"],
     },
+    "C08": {
+        "proof_module": "OidcModel.Proofs.C08",
+        "theorems": ["Res.honoured_implies_live", "Res.dead_step", "Res.dead_not_honoured", "Res.revocation_sticks", "Res.revoke_kills",
+                     "Res.foreign_revoke_refused", "Res.unknown_revoke_ok", "Res.inactive_discloses_nothing"],
+        "cases": {"quick": 250, "thorough": 5000},
+        "rule": "random histories (5..20 ops quick, ..44 thorough) on both routers mixing token issuance through real code flows (opaque and JWT access tokens, 5 clients), "
+                "expiry, userinfo, introspection (owner / foreign / public / assertion callers), revocation (hints none / access_token / refresh_token / bogus; owner / foreign / "
+                "public), end_session with the ID token as hint, token exchange with the access token as subject; presented strings are genuine, bit-flipped (really decrypted, "
+                "so CFB malleability is exercised), re-encrypted under another key, JWTs of a foreign key, garbage; non-trivial = not the modal class",
+        "trivial_class": r"issue:.*",
+        "trusted_base": COMMON_TB + ["the resource endpoints are hand-modelled (Model/Resource.lean) over the reference storage's token table; tied by this stream",
+                                     "what Decrypt makes of a presented string is taken from the real AES code (oracle); the theorems hold for ANY plaintext"],
+        "assumptions": ["token ids are unique in the storage (fresh counters)"],
+    },
 }
